@@ -1557,6 +1557,7 @@ func fzRunHsCase(r *fzRun, cs fzHsCase, idx int) {
 	r.input(mutName, fzHash("S3", cs.Script, cs.StepName, mutName), true)
 	resCh := hsStartLib(conf, libConn, libIsClient)
 	_, serr := raw.runScript(steps, 0, cs.Step, 5*time.Second, nil)
+	var cerr error
 	if serr == nil {
 		if sent != nil {
 			_ = raw.send(sent)
@@ -1580,7 +1581,7 @@ func fzRunHsCase(r *fzRun, cs fzHsCase, idx int) {
 			}
 		}
 		// go on with the rest of the exchange as if nothing had happened (a benign mutation may let it complete)
-		_, _ = raw.runScript(steps, cs.Step+1, len(steps), 400*time.Millisecond, nil)
+		_, cerr = raw.runScript(steps, cs.Step+1, len(steps), 400*time.Millisecond, nil)
 	}
 	res := hsAwait(resCh, 30*time.Second)
 	w := map[string]interface{}{"layer": "socket S3 (handshake)", "case": cs, "idx": idx, "sent_hex": hex.EncodeToString(sent[:minInt(len(sent), 256)])}
@@ -1596,9 +1597,13 @@ func fzRunHsCase(r *fzRun, cs fzHsCase, idx int) {
 		raw.close()
 		hsAwait(resCh, 5*time.Second)
 	case res.sess != nil:
+		// the library end accepted the exchange: the session it returned has to be usable, not just exist
 		r.count("s3_handshake_completed_despite_mutation", 1)
+		rawReady := serr == nil && cerr == nil && raw.qm != nil && raw.bm != nil && !raw.isClosed()
+		childLog("S3X %d %s step=%d %s %s arg=%d: exercising the session (version %d, raw peer ready %v)", idx, cs.Script, cs.Step, cs.StepName,
+			cs.Mut, cs.Arg, res.sess.communicationVersion, rawReady)
+		fzExerciseSession(r, fmt.Sprintf("S3-%s-%d-%s-use", cs.Script, cs.Step, mutName), w, res.sess, raw, rawReady)
 		raw.close()
-		res.sess.Close()
 	case res.err != nil && strings.Contains(res.err.Error(), "timeout"):
 		r.count("s3_waited_until_timeout", 1)
 	default:
@@ -1607,6 +1612,134 @@ func fzRunHsCase(r *fzRun, cs fzHsCase, idx int) {
 	if serr != nil {
 		r.count("s3_script_did_not_reach_the_step", 1)
 	}
+}
+
+// fzExerciseSession uses a session whose handshake completed although one message of the exchange was odd: the negotiated
+// version must be one this build supports, and every path that stamps or looks up something by that version, or walks the
+// memory the exchange set up, must work: a write through share memory (queue element + polling event), inbound data
+// (element + polling event from the raw peer), a write that falls back to the socket, the stream's close, the session's
+// close. Judged: no panic here, none on the event loop (the child stays alive), version in range. A step that merely
+// does not complete (watchdog, short data) is counted, not judged: C13 is about crashes.
+func fzExerciseSession(r *fzRun, name string, w map[string]interface{}, s *Session, raw *rawPeer, rawReady bool) {
+	step := "start"
+	defer func() {
+		if p := recover(); p != nil {
+			w["panic"], w["stack"], w["exercise_step"] = fmt.Sprint(p), truncate(string(debug.Stack()), 4000), step
+			w["communication_version"] = s.communicationVersion
+			r.viol(name, fmt.Sprintf("panic while using a session (communicationVersion %d) whose handshake completed after an odd message, at step %q: %v",
+				s.communicationVersion, step, p), w)
+		}
+		s.Close()
+		waitTeardown(s, 20*time.Second)
+	}()
+	failed := func(what string, err error) {
+		r.count("s3_exercise_step_incomplete_not_judged", 1)
+		r.mu.Lock()
+		if len(r.sum.Samples) < 6 {
+			r.sum.Samples = append(r.sum.Samples, map[string]interface{}{"layer": "S3 exercise", "case": name, "step": what, "error": fmt.Sprint(err)})
+		}
+		r.mu.Unlock()
+	}
+	r.count("s3_sessions_exercised", 1)
+	if v := s.communicationVersion; v == 0 || v > maxSupportProtoVersion {
+		w["communication_version"] = v
+		r.viol(name, fmt.Sprintf("the handshake completed with communicationVersion %d; this build supports 1..%d (every later event is stamped with it and pollingEventWithVersion is indexed by it)",
+			v, maxSupportProtoVersion), w)
+		// go on: the child has to survive the use of this session as well
+	}
+	key := uint64(0xe0e0) + uint64(s.communicationVersion)
+	step = "OpenStream"
+	st, err := s.OpenStream()
+	if err != nil {
+		failed(step, err)
+		return
+	}
+	_ = st.SetDeadline(time.Now().Add(10 * time.Second))
+	out := make([]byte, 100)
+	fillKeyed(out, key, 0)
+	step = "WriteBytes+Flush through share memory"
+	if _, err := st.BufferWriter().WriteBytes(out); err != nil {
+		failed(step, err)
+		return
+	}
+	if err := st.Flush(false); err != nil {
+		failed(step, err)
+		return
+	}
+	if rawReady {
+		step = "raw peer takes the element after the polling event"
+		got, _, _, err := raw.awaitStream(st.id, len(out), false, 10*time.Second)
+		if err != nil || string(got) != string(out) {
+			failed(step, fmt.Errorf("%d of %d bytes, err %v", len(got), len(out), err))
+			return
+		}
+		r.count("s3_exercise_outbound_shm_ok", 1)
+		step = "inbound polling event + data element"
+		in := make([]byte, 60)
+		fillKeyed(in, key+1, 0)
+		if _, err := raw.shmPut(st.id, in, streamOpened); err != nil {
+			failed(step, err)
+			return
+		}
+		if raw.wakeNeeded() {
+			if err := raw.send(rawEvPolling(raw.version)); err != nil {
+				failed(step, err)
+				return
+			}
+		}
+		got = got[:0]
+		buf := make([]byte, len(in))
+		for len(got) < len(in) {
+			n, err := st.Read(buf)
+			got = append(got, buf[:n]...)
+			if err != nil {
+				break
+			}
+		}
+		if string(got) != string(in) {
+			failed(step, fmt.Errorf("read %d of %d bytes", len(got), len(in)))
+			return
+		}
+		st.BufferReader().ReleasePreviousRead()
+		r.count("s3_exercise_inbound_ok", 1)
+	}
+	step = "write that falls back to the socket"
+	var hoarded [][]*bufferSlice
+	for i := range s.bufferManager.lists {
+		hoarded = append(hoarded, hoard(s.bufferManager, i, 1<<20))
+	}
+	fb := make([]byte, 80)
+	fillKeyed(fb, key+2, 0)
+	_, werr := st.Write(fb)
+	for _, h := range hoarded {
+		unhoard(s.bufferManager, h)
+	}
+	if werr != nil {
+		failed(step, werr)
+		return
+	}
+	if rawReady {
+		got, via, _, err := raw.awaitStream(st.id, len(fb), false, 10*time.Second)
+		if err != nil || string(got) != string(fb) || via == 0 {
+			failed(step, fmt.Errorf("%d of %d bytes, %d fallback events, err %v", len(got), len(fb), via, err))
+			return
+		}
+		r.count("s3_exercise_fallback_ok", 1)
+	}
+	step = "Stream.Close"
+	if err := st.Close(); err != nil {
+		failed(step, err)
+		return
+	}
+	if rawReady {
+		if _, _, closed, err := raw.awaitStream(st.id, 0, true, 10*time.Second); err != nil || !closed {
+			failed("raw peer sees the stream's close", err)
+			return
+		}
+		r.count("s3_exercise_close_seen", 1)
+	}
+	step = "Session.Close"
+	r.count("s3_exercise_complete", 1)
 }
 
 func fzSockS3(r *fzRun, echo *fzEcho) {
